@@ -191,6 +191,85 @@ def forwardFees (cfg : Cfg) (s : St) (sender epochId : Nat) (router : Nat → Na
     | .err => .err
     | .panic => .panic
 
+/-! ### `CollectFees` / `AggregateFees` sent directly (not as the self-calls of `ForwardFees`)
+
+  Neither entry point looks at `info.sender` (`contract.rs::execute` does not even pass `info` on):
+  ANYBODY may send them, at any time.  `sender` is kept as an argument to make that visible
+  (`collectFees_any_sender` / `aggregateFees_any_sender` in `WW/Proofs/Collector.lean`).  What the
+  code does reject:
+   * a factory that does not answer the query of the named `FactoryType` (`wrongFactory`),
+   * a contract address that is no contract (`onePool k` / `oneVault k` with `k` out of range),
+   * `AggregateFees { Contracts {..} }` — always (`InvalidContractsFeeAggregation`).
+  Sent directly the messages carry no reply id: no take rate, no transfer to the distributor, no epoch. -/
+
+/-- the `FeesFor` values the harness sends (factory pages are `start_after: None, limit: 30`) -/
+inductive FeesFor where
+  /-- `Factory { vault_factory, Vault {..} }` -/
+  | vaultFactory
+  /-- `Factory { pool_factory, Pool {..} }` -/
+  | poolFactory
+  /-- `Factory { pool_factory, Vault {..} }`: the factory cannot answer the `Vaults` query -/
+  | wrongFactory
+  /-- `Contracts { [pair k as Pool] }` — the pair need not be listed by the factory -/
+  | onePool (k : Nat)
+  /-- `Contracts { [vault k as Vault] }` -/
+  | oneVault (k : Nat)
+deriving Repr, DecidableEq
+
+/-- `ExecuteMsg::CollectFees { collect_fees_for }` sent by `sender` -/
+def collectFees (s : St) (_sender : Nat) : FeesFor → Res St
+  | .vaultFactory => .ok { s with bal := collectVaults s.vaults s.bal, vaults := vaultsAfter s.vaults }
+  | .poolFactory => .ok { s with bal := collectPools s.pools s.bal, pools := poolsAfter s.pools }
+  | .wrongFactory => .err
+  | .onePool k =>
+    match s.pools[k]? with
+    | some p => .ok { s with bal := add (add s.bal p.a (sent true p.pa)) p.b (sent true p.pb),
+                             pools := s.pools.set k { p with pa := kept true p.pa, pb := kept true p.pb } }
+    | none => .err
+  | .oneVault k =>
+    match s.vaults[k]? with
+    | some v => .ok { s with bal := add s.bal v.asset v.pend, vaults := s.vaults.set k { v with pend := 0 } }
+    | none => .err
+
+/-- pending protocol fees of the pairs in asset `i` (collectable or not) -/
+def poolsPending (i : Nat) : List Pool → Nat
+  | [] => 0
+  | p :: ps => (if p.a = i then p.pa else 0) + (if p.b = i then p.pb else 0) + poolsPending i ps
+
+/-- what a direct `CollectFees` for `f` moves into the collector, per asset -/
+def directCollected (s : St) (f : FeesFor) (i : Nat) : Nat :=
+  match f with
+  | .vaultFactory => vaultsCollected i s.vaults
+  | .poolFactory => poolsCollected i s.pools
+  | .wrongFactory => 0
+  | .onePool k =>
+    match s.pools[k]? with
+    | some p => (if p.a = i then sent true p.pa else 0) + (if p.b = i then sent true p.pb else 0)
+    | none => 0
+  | .oneVault k =>
+    match s.vaults[k]? with
+    | some v => if v.asset = i then v.pend else 0
+    | none => 0
+
+/-- the candidate assets a direct `AggregateFees` stores in `TMP_ASSET_INFOS`; `none` = rejected -/
+def aggCands (cfg : Cfg) (s : St) : FeesFor → Option (List Nat)
+  | .vaultFactory => some (vaultAssets cfg s.vaults)
+  | .poolFactory => some (poolAssets cfg s.pools)
+  | _ => none
+
+/-- `ExecuteMsg::AggregateFees { aggregate_fees_for }` sent by `sender`: one aggregation pass over the
+    collector's own balances; the router pays the collector (`to: None`). Returns the new state, what
+    the router paid in, and the swaps made. -/
+def aggregateFees (cfg : Cfg) (s : St) (_sender : Nat) (f : FeesFor) (router : Nat → Nat → Nat → Nat)
+    (acc : Nat → Nat → Nat) : Res (St × Nat × List (Nat × Nat × Nat)) :=
+  match aggCands cfg s f with
+  | none => .err
+  | some cands =>
+    match aggregate cfg.dist router 0 s.pools s.routes cands s.bal with
+    | .ok (b, inn, sw) => .ok ({ s with bal := b, pools := addAcc acc 0 s.pools }, inn, sw)
+    | .err => .err
+    | .panic => .panic
+
 /-- `UpdateConfig { take_rate, take_rate_dao_address, is_take_rate_active }` -/
 def updateConfig (cfg : Cfg) (s : St) (sender : Nat) (rate : Option Nat) (setDao : Bool) (active : Option Bool) : Res St :=
   if sender ≠ cfg.owner then .err
